@@ -907,7 +907,13 @@ pub fn eval_condition(value: &str, context: &impl ContextView) -> Result<bool> {
                 "Expected closing '{EXPR_END}': '{value}'"
             )))?;
     }
-    eval_str(value, context)?
+    let result = tokenize(value).and_then(|tokens| evaluate(tokens, context))?;
+    if let Ok(number) = result.one_number() {
+        // the number itself decides, not its rendering (which is rounded to 3 decimals)
+        return Ok(number != 0.);
+    }
+    result
+        .to_string()
         .parse::<f32>()
         .map(|v| v != 0.)
         .map_err(|_| SvgdxError::ParseError(format!("Invalid condition: '{value}'")))
